@@ -102,8 +102,8 @@ def validate_one(args):
 
 def main(c):
     exe = vlib.build_driver('c01', 'plain')
-    scale = 2 if c.tier == 'thorough' else 1
-    nsh = 4 if c.tier == 'thorough' else 3      # thorough = larger tables per shard (scale 2); the Python reader bounds how many shards are affordable
+    scale = 1                                    # the pure-Python reader bounds the volume: the thorough tier doubles the number of generator shards (other seeds) and adds the 2^31-row table and the valgrind pass
+    nsh = 6 if c.tier == 'thorough' else 3
     base = vlib.scratch_dir('c05')
     try:
         runs = {}
@@ -116,7 +116,7 @@ def main(c):
             if tag == 'A' or c.tier == 'thorough':
                 shards.append(['enum', c.seed, 1, w, kd])
             c2 = vlib.Check('C05', 'exploration', ['--tier', c.tier])   # scratch collector: the driver's own C01 verdicts are not C05's
-            vlib.run_shards(c2, exe, shards, env={'MALLOC_PERTURB_': perturb, 'CQV_NOISE': '2' if tag == 'A' else '5', 'CQV_KEEP_STRUCTURE_ONLY': '1'}, cpu_limit=3000)
+            vlib.run_shards(c2, exe, shards, env=dict({'MALLOC_PERTURB_': perturb, 'CQV_NOISE': '2' if tag == 'A' else '5', 'CQV_KEEP_STRUCTURE_ONLY': '1'}, **({'CQV_ROWS_2_31': '1'} if c.tier == 'thorough' else {})), cpu_limit=3000)
             for m in c2.inconclusive:
                 c.fail_harness('writer run %s: %s' % (tag, m))
             # every 6th table is also written through a pipe (a stream that cannot seek or tell) with the same write history and must
